@@ -26,7 +26,12 @@ def functions():
 def _mk(with_P):
     sp = gram.Space()
     A = sp.op("A")
-    P = sp.op("P") if with_P else None
+    if with_P == "returns-its-argument":
+        # a preconditioner that hands back the very array it is given (Identity linop, lambda r: r): P = I mathematically,
+        # and every in-place update of the residual is then visible through whatever still refers to P(r)
+        P = lambda v: v
+    else:
+        P = sp.op("P") if with_P else None
     return sp, A, P
 
 
@@ -182,6 +187,9 @@ def replay_request(res):
 def jobs(tier):
     M = "contracts.C12"
     js = []
+    js.append(Job(M, "job_init", with_P="returns-its-argument"))
+    for last in (False, True):
+        js.append(Job(M, "job_update", with_P="returns-its-argument", last=last))
     for wp in (False, True):
         js.append(Job(M, "job_init", with_P=wp))
         for last in (False, True):
